@@ -78,4 +78,8 @@ def concretise(pc, it):
 
 
 def fallback(pc):
-    return [{'script': 'wsgi_case.py', 'case': {}}]
+    from props.C14 import REQS
+    cases = [{'script': 'wsgi_case.py', 'case': {}}]
+    for call, en in (('getsize', 'EIO'), ('getmtime', 'EIO'), ('getsize', 'ENOENT'), ('getmtime', 'ENOENT'), ('read', 'EIO')):
+        cases.append({'script': 'static_case.py', 'case': {'requests': REQS, 'fault': {'call': call, 'errno': en}}})
+    return cases
